@@ -144,9 +144,10 @@ def wt(x: float, t: float) -> float:
     b = phi_major(t - xx) - phi_major(-t - xx)
     if b < sys.float_info.epsilon:
         return 1.0
-    return ((t - xx) * phi_minor(t - xx) + (t + xx) * phi_minor(-t - xx)) / b + vt(
+    value = ((t - xx) * phi_minor(t - xx) + (t + xx) * phi_minor(-t - xx)) / b + vt(
         x, t
     ) * vt(x, t)
+    return min(max(value, 0.0), 1.0)
 
 
 def _ladder_pairs(teams: List[Any]) -> List[List[Any]]:
